@@ -197,10 +197,27 @@ def hist_gen(ctx, vh, batch, mode, args):
     return rows
 
 
+def hist_localise(ctx, mode, row):
+    """first failing step of a history, decided by the kernel (oracle index, agree index)"""
+    try:
+        v = ctx.coq_eval_values("c04_%s_localise" % mode, HDR, ["hist_first_bad %s" % hist_term(row)])[0]
+        m = re.findall(r"Some (\d+)", v)
+        k = min(int(x) for x in m) if m else None
+    except Exception:
+        k = None
+    if k is None:
+        return first_bad_step(row)
+    st = row["steps"][k]
+    return ("after the %d operations %s (initially known sockets %s): index dump rooms=%s sids=%s, Sockets({})=%s, "
+            "Sockets({x%d})=%s, SocketRooms(x%d)=(%s,%s), broadcast probe %s, store %s, closed %s"
+            % (k + 1, [s["op"] for s in row["steps"][:k + 1]], row["init"], st["rooms"], st["sids"], st["all"], st["pr"],
+               st["prs"], st["ps"], st["pok"], st["psr"], st["probe"], st["store"], st["closed"]))
+
+
 def hist_report(ctx, batch, mode, rows):
     report(ctx, batch, mode, mode, rows, "hist_agree", "hist_oracle", HIST_THMS,
-           lambda r: "after some prefix of this history the adapter's indexes / Sockets / SocketRooms / a broadcast probe "
-                     "differ from the net effect of the joins and leaves: " + first_bad_step(r))
+           lambda r: "the adapter's indexes / Sockets / SocketRooms / a broadcast probe differ from the net effect of the "
+                     "joins and leaves " + hist_localise(ctx, mode, r))
     # 'a broadcast issued through a socket never reaches that socket' on every probe
     bad = batch.bad(mode, "hist_sender_oracle")
     ctx.obligation("oracle:%s/sender-excluded" % mode, "oracle", True,
@@ -420,6 +437,12 @@ def run(ctx):
     ctx.assumptions = ["Go map iteration: an entry present for the whole iteration is produced exactly once, an entry "
                        "removed before being reached is not produced",
                        "mapset.Set (deckarep/golang-set) behaves as a finite set"]
+    rf = getattr(ctx, "replay_file", None)
+    if rf:
+        # every suite is exhaustive or a function of the seed: replaying = the recorded seed on the working tree
+        import json
+        ctx.seed = json.load(open(rf)).get("seed", ctx.seed)
+        ctx.note("replay of %s with seed %s" % (rf, ctx.seed))
     t0 = time.time()
     ctx.proofs(modules=["Adapter/BroadcastCheck", "Adapter/BroadcastLiveCheck"])
     t1 = time.time()
